@@ -456,12 +456,20 @@ def run_shard(cfg):
         mags, over = _load_list(cfg, branch, edges)
         signed = sorted(set([-m for m in mags] + mags + [-o for o in over] + over))
         for style in ("float", "np.float64"):
-            for L in signed:
+            prev = None       # all look-ups go to ONE Binned object, in ascending order: the recorded case carries the
+            for L in signed:  # preceding look-up, so that a result that depends on the look-up history can be replayed
                 acc.cases += 1
                 if _near_edge(cfg, edges, L) or abs(L) >= edges[-1]:
                     acc.nontrivial += 1
                 viol, s = probe_scalar(cfg, b, tab, branch, style, L, acc)
-                report(viol, {"p": "scalar", "branch": branch, "style": style, "L": L})
+                report(viol, {"p": "scalar", "branch": branch, "style": style, "L": L, "previous_lookup": prev})
+                prev = L
+            # ... and in descending order (a load in class k+1 is then followed by the edge of class k)
+            for L in reversed([x for x in signed if abs(x) <= edges[-1]]):
+                viol, s = probe_scalar(cfg, b, tab, branch, style, L, acc)
+                report(viol, {"p": "scalar", "branch": branch, "style": style, "L": L, "previous_lookup": prev})
+                prev = L
+                acc.cases += 1
                 acc.outcomes.add(hash((branch, None if s is None else round(float(np.asarray(s).reshape(-1)[0]), 9))))
         inrange = [x for x in signed if abs(x) <= edges[-1]]
         acc.cases += len(inrange)
@@ -513,6 +521,8 @@ def _replay(case):
     b = _binned(cfg, cfg["L_max"])
     tab = _tables(cfg, b)
     if probe["p"] == "scalar":
+        if probe.get("previous_lookup") is not None:
+            probe_scalar(cfg, b, tab, probe["branch"], probe["style"], float(probe["previous_lookup"]), acc)
         return probe_scalar(cfg, b, tab, probe["branch"], probe["style"], float(probe["L"]), acc)[0]
     if probe["p"] == "series":
         return probe_series(cfg, b, tab, probe["branch"], [float(x) for x in probe["loads"]], acc)
